@@ -81,7 +81,7 @@ def op_symbol_table(src):
 class DispatchUnit:
     engine = "kani"
     uid = "c05_dispatch"
-    props = ["C05", "C01", "C15"]
+    props = ["C05", "C01", "C15", "C06"]
     title = "bin_op: operator symbol -> operator, operand sides (K-t, all operand values) + Op::symbol table"
     timeout = 1500
     assumes = ["K-t: the operator table of bin_op is extracted verbatim; popping the operands and replacing the stack are unit c05_binop_frame; the `is` arm is dropped (C08.is.identity)",
@@ -109,6 +109,8 @@ class DispatchUnit:
             kept += list(pat) + ["=>"] + list(b) + [","]
         if dropped != 1:
             raise Undecided(f"bin_op: expected exactly one `(\"is\", ..)` arm, found {dropped}")
+        not_blind = sorted({text(pat).split(",")[0].strip("( \"") for pat, b in arms if not text(pat).replace(" ", "").startswith('("is",')
+                            and not re.fullmatch(r'\("[^"]*",(\.\.|_,_)\)', text(pat).replace(" ", ""))})
         table = ["match", "(", "symbols", ".", "as_str", "(", ")", ",", "&", "left", ",", "&", "right", ")", "{"] + kept + ["}"]
         real, dropped_log = extract_crate(repo)
         # the by-value impls the table calls
@@ -118,11 +120,27 @@ class DispatchUnit:
             it = src.item(rel, f"impl std :: ops :: {tr} for Primitive")
             byval.append(f"// {rel} : impl std::ops::{tr} for Primitive (verbatim)\n" + render(it["all"], 0))
         hs = [(f"h_{n}", f"check({i}, {0 if k == 'int' else 1 if k == 'byte' else 2}, \"{s}\")", f"C05.dispatch.{n}") for i, (s, n, k) in enumerate(SYMS)]
+        # `* / %` on ints as well: "the table does not look at operand kinds" is an assumption a fast path for one kind breaks (seed C06-20); on a
+        # kind-blind table both sides are the same operator call; the 32-bit divider is beyond CBMC here, so for `/` and `%` kind-blindness itself is
+        # decided by reading the arms (`("/", ..)`): an arm that names an operand kind leaves the symbol undecided
+        hs += [(f"h_{n}_int", f"check({i}, 0, \"{s}\")", f"C05.dispatch.{n}.int") for i, (s, n, k) in enumerate(SYMS) if n == "mul"]
         htext = "\n".join(f"    h!({n}, {c});" for n, c, _ in hs)
         lib = SHIMS + "\n" + real + "\n" + "\n".join(byval) + "\n" + HARNESS.replace("TABLE", render(table, 1)).replace("HARNESSES", htext)
         crate = K.write_crate(Path(workdir) / "kt_dispatch", "kt_dispatch", "// GENERATED (K-t) from bytecode/src/instruction.rs bin_op + the operator impls\n" + lib)
         res.gen_path = str(crate / "src/lib.rs")
         per, raw, wall, cmd, timed_out = K.run_kani(crate, harness_filter="verif_dispatch", jobs=10, timeout=self.timeout, harness_timeout=400)
+        # a constant of instruction.rs the table names (an error text, a limit): taken over verbatim, then the crate is built again
+        import re as _re
+        for _ in range(4):
+            mc = _re.search(r"cannot find value `([A-Z][A-Z0-9_]*)` in this scope", raw) if not per else None
+            if not mc:
+                break
+            md = _re.search(r"(?:pub(?:\([a-z]+\))?\s+)?(?:const|static)\s+" + mc.group(1) + r"\s*:[^;]*;", (Path(repo) / INSTR).read_text())
+            if not md or ("verbatim constant " + mc.group(1)) in lib:
+                break
+            lib = lib.replace(real, f"// {INSTR}: verbatim constant {mc.group(1)}\n{md.group(0)}\n" + real, 1)
+            crate = K.write_crate(Path(workdir) / "kt_dispatch", "kt_dispatch", "// GENERATED (K-t) from bytecode/src/instruction.rs bin_op + the operator impls\n" + lib)
+            per, raw, wall, cmd, timed_out = K.run_kani(crate, harness_filter="verif_dispatch", jobs=10, timeout=self.timeout, harness_timeout=400)
         res.raw = raw[-8000:]; res.checker_cmd = cmd
         res.functions = ["instruction.rs: bin_op (operator table)", "ops/{add,sub,mul,div,rem}.rs: impl <Op> for Primitive (by value)", "math_expr.rs: Op::symbol"]
         res.samples = [f"{o}: {c}" for _, c, o in hs[:2]]
@@ -132,7 +150,7 @@ class DispatchUnit:
         obls = []
         for n, call, oid in hs:
             r = per.get(n)
-            o = Obl(oid, ["C05", "C01", "C15"], fn="bin_op[operator table]", engine="kani/cbmc", desc=f"{call}: the symbol applies the operator of that meaning with the left operand on the left, all operand values")
+            o = Obl(oid, ["C05", "C01", "C15", "C06"], fn="bin_op[operator table]", engine="kani/cbmc", desc=f"{call}: the symbol applies the operator of that meaning with the left operand on the left, all operand values")
             if r is None or r["status"] is None or r["oom"] or r["unwind"] or r["unsupported"]:
                 o.status = "undecided"; o.detail = "no verdict" if r is None or not r.get("timeout") else "CBMC timed out"
             else:
@@ -143,6 +161,9 @@ class DispatchUnit:
                 else:
                     # overflow panics inside the operators are D9 (C17), not this obligation
                     o.status = "failed" if named_f else "discharged"; o.detail = "\n".join(f"{d} @ {l}" for d, l in named_f)
+            sym = call.split('"')[1]
+            if sym in not_blind and o.status == "discharged" and not oid.endswith(".int") and dict((s_, k_) for s_, n_, k_ in SYMS).get(sym) == "byte":
+                o.status = "undecided"; o.detail = f"an arm of the table for `{sym}` names an operand kind: the harness over {dict((s_, k_) for s_, n_, k_ in SYMS)[sym]} operands does not speak for the other kinds"
             obls.append(o)
         # ---- Op::symbol: finite table, decided by comparison (exhaustive enumeration)
         st = op_symbol_table(src)
